@@ -180,8 +180,26 @@ def run(res, tier, seed, shard, nshards):
                     if quick and (li + with_rc + tls + len(h)) % 2:
                         continue
                     jobs.append((h, loss, tls, "RECONNECT", with_rc))
+    # validation switched off (run_forever(skip_utf8_validation=True)): the same events in the same order with the same types reported
+    # to on_data (whether text is then handed over as str or as the raw bytes is left open)
+    for hi, h in enumerate([h for n in range(1, 4) for h in itertools.product(["text", "binary", "frag2", "frag3", "ping"], repeat=n)]):
+        if quick and hi % 2:
+            continue
+        jobs.append((h, "per-frame" if hi % 3 else "burst", bool(hi % 2), "SKIP-UTF8", None))
+    amb = H.ambient((seed, shard, "C13"), res, dims=("app",))
+    amb.__enter__()
+    try:
+        _run_jobs(res, W, rng, seed, shard, nshards, jobs)
+    finally:
+        amb.__exit__(None, None, None)
+
+
+def _run_jobs(res, W, rng, seed, shard, nshards, jobs):
     for ji, (h, seg, tls, sub, raising) in enumerate(jobs):
         if ji % nshards != shard:
+            continue
+        if sub == "SKIP-UTF8":
+            one(res, W, rng, h, seg, tls, set(CBS), None, skip_utf8=True)
             continue
         if sub == "RECONNECT":
             reconnect_case(res, W, rng, h, seg, tls, raising)
@@ -201,7 +219,7 @@ def run(res, tier, seed, shard, nshards):
         one(res, W, rng, h, seg, tls, enabled, raising)
 
 
-def one(res, W, rng, hist, seg, tls, enabled, raising_name, via_proxy=False):
+def one(res, W, rng, hist, seg, tls, enabled, raising_name, via_proxy=False, skip_utf8=False):
     forced = None
     if isinstance(raising_name, tuple):
         raising_name, fe, fk = raising_name
@@ -234,6 +252,8 @@ def one(res, W, rng, hist, seg, tls, enabled, raising_name, via_proxy=False):
         out["run"] = run
         if via_proxy:
             run.run_forever(http_proxy_host="proxy.test", http_proxy_port=3128, http_proxy_timeout=0.4)
+        elif skip_utf8:
+            run.run_forever(skip_utf8_validation=True, **extra_kw)
         else:
             run.run_forever(sslopt={"cert_reqs": 0} if tls and rng.random() < 0.5 else None, **extra_kw)
         return run
@@ -250,7 +270,8 @@ def one(res, W, rng, hist, seg, tls, enabled, raising_name, via_proxy=False):
     res.case((hist, seg, tls, tuple(sorted(enabled)), raising_name, via_proxy, assign, bool(extra_kw)), nontrivial=len(hist) >= 2 or seg != "per-frame")
     if via_proxy:
         res.count("via_proxy_runs")
-        if run is not None and run.connect_requests != ["CONNECT app.test:80 HTTP/1.1"]:
+        # (an ambient draw may have turned the connection into a TLS one: the tunnel then goes to port 443)
+        if run is not None and run.connect_requests != [f"CONNECT app.test:{443 if run.url.startswith('wss') else 80} HTTP/1.1"]:
             res.violation("proxy-not-used", f"CONNECT requests seen: {run.connect_requests}", case, segmentation=seg, tls=tls)
     res.count("tls_runs" if tls else "plain_runs")
     if seg in ("burst", "cut-in-payload"):
@@ -280,6 +301,11 @@ def one(res, W, rng, hist, seg, tls, enabled, raising_name, via_proxy=False):
             norm.append((t, n, "error:" + type(a[0]).__name__ + ":" + str(a[0])[:40]))
         else:
             norm.append((t, n, tuple(a)))
+    if skip_utf8:
+        res.count("runs_with_validation_off")
+        b = lambda x: x.encode("utf-8") if isinstance(x, str) else x  # noqa
+        exp = [(t, n, tuple(b(x) for x in a) if isinstance(a, tuple) else a) for t, n, a in exp]
+        norm = [(t, n, tuple(b(x) for x in a) if isinstance(a, tuple) else a) for t, n, a in norm]
     # compare sequences
     i = j = 0
     ok = True
